@@ -46,9 +46,11 @@ enum { T_DESC = 0, T_SCHEMA = 1 };
 // the two lightest header entities (2 and 1 attributes): instance construction dominates the cost of a replay
 static const char * TNAME[2] = { "File_Description", "File_Schema" };
 static const char TCH[2] = { 'D', 'S' };
-// spellings used for the look-ups by name; [2] is a name no instance ever has
-static const char * QNAME[5] = { "File_Description", "File_Schema", "File_Name", "FILE_DESCRIPTION", "file_schema" };
-static const int QTYPE[5] = { T_DESC, T_SCHEMA, -1, T_DESC, T_SCHEMA };
+// spellings used for the look-ups by name; [2] is a name no instance ever has, [5] and [6] are proper prefixes of names that instances do
+// have and [7] extends one (a look-up by name is a comparison of whole names)
+#define NQ 8
+static const char * QNAME[NQ] = { "File_Description", "File_Schema", "File_Name", "FILE_DESCRIPTION", "file_schema", "File_", "File_Sch", "File_Schemas" };
+static const int QTYPE[NQ] = { T_DESC, T_SCHEMA, -1, T_DESC, T_SCHEMA, -1, -1, -1 };
 
 static const stateEnum STATES[4] = { completeSE, incompleteSE, deleteSE, newSE };
 static const char STCH[4] = { 'C', 'I', 'D', 'N' };
@@ -415,7 +417,7 @@ static void check_all( World & w, Viol & v, std::vector<int> * canon ) {
         }
     }
     // look-up by entity name from every start index, and the per-name count
-    for( int q = 0; q < 5; q++ ) {
+    for( int q = 0; q < NQ; q++ ) {
         int cnt = 0;
         for( int i = 0; i < n; i++ ) if( m.L[i].type == QTYPE[q] ) cnt++;
         int ec = im->EntityKeywordCount( QNAME[q] );
